@@ -113,6 +113,20 @@ Proof.
     inv_ok H. eapply TrLink; eauto.
 Qed.
 
+(* a step that is not a directory header touches the node under its own path only *)
+Lemma step_only_own_path : forall b pkgs i me s h s' app q,
+  step b pkgs i me s h = IOk (s', app) -> h_kind h <> KDir -> q <> h_path h ->
+  fs_get (s_fs s') q = fs_get (s_fs s) q.
+Proof.
+  intros b pkgs i me s h s' app q H Kd Hq.
+  destruct (step_tr _ _ _ _ _ _ _ _ H) as [E|K _ _ _|sm md ow dt K _ _ _ E|K _ E|K _ E _].
+  - subst s'. reflexivity.
+  - contradiction.
+  - subst s'. cbn. apply fs_get_set_other. congruence.
+  - subst s'. unfold set_file. cbn. apply fs_get_set_other. congruence.
+  - subst s'. unfold set_file. cbn. apply fs_get_set_other. congruence.
+Qed.
+
 (* ---- the invariant --------------------------------------------------------- *)
 Definition from_init (init : fsmap) (n : node) : Prop := exists q, fs_get init q = Some n.
 
